@@ -4,8 +4,16 @@ Formal side: props/C14.v (model Include.v of parser::parse_file + include_files_
 top of the shared parser model Parser.v; specification = the tagged pasting `inline_x`).
 Correspondence: random ACYCLIC include trees on real directories below .cache/c14/<case>/ (created,
 used and removed per case by the Rust harness).  The extracted model gets the same tree as a
-virtual file system plus the table of path resolutions computed here by an emulation of
-PathBuf::parent / push / canonicalize (so the OS's resolution is tied by this run only).
+directory tree; the path of every included file is computed by the EXTRACTED lexical model
+IncludePath.resolve (Path::parent, PathBuf::push, canonicalize-or-plain-join); only
+std::fs::canonicalize and the file contents come from an emulation of the OS in ocaml/c14_driver.ml
+(Section variables canon / fs), which is itself checked against the OS by the K cases.
+  U cases: extracted Path::parent / PathBuf::push / the pre-processor's join vs. std::path, exhaustive over
+           short strings of '/', '.', letters, space, non-ASCII, backslash (no file system involved);
+  K cases: the driver's canonicalize / read emulation vs. fs::canonicalize and parse_file on real trees with
+           symbolic links (to directories, to files, dangling, looping), over a pool of hostile spellings;
+  P cases: F cases (below) over a pool of hostile spellings of the including file and of the argument
+           (./ ../ // trailing / and /. empty argument, spaces, non-ASCII, absolute, leading backslash, symlinks);
   F cases: duckscript::parser::parse_file vs. the extracted parse_file: every instruction with its
            line and source, or the error kind + line + file;
   R cases: run_script_file(main) vs. run_script(<inlined text computed by the extracted `inline`>):
@@ -18,7 +26,13 @@ import vlib
 from vlib import enc_str, dec_str
 
 THEOREMS = ["C14_flat", "C14_paste", "C14_paste_defined", "C14_fuel", "C14_prov", "C14_prov_order",
-            "C14_fail", "C14_fail_anywhere", "C14_nonvacuous"]
+            "C14_fail", "C14_fail_anywhere", "C14_nonvacuous",
+            # path resolution: Include.v's `resolve` instantiated with the lexical model IncludePath.v
+            "C14_parent_total", "C14_parent_prefix", "C14_parent_dir_file", "C14_trim_dir_clean", "C14_clean_dir_last",
+            "C14_resolve_relative", "C14_resolve_relative_any", "C14_resolve_absolute", "C14_resolve_no_source",
+            "C14_resolve_no_dir", "C14_resolve_root", "C14_resolve_no_parent", "C14_resolve_canon_fails",
+            "C14_resolve_reads", "C14_push_absolute", "C14_parent_corners", "C14_push_corners",
+            "C14_resolve_nonvacuous"]
 FUEL = 7
 DIRS = ["", "lib", "lib/deep", "lib/deep/er", "other", "my dir", "other/x y"]
 MALFORMED = ['x = set "abc', 'emit \\q', '!', '!bogus a b', ':"lab" set', ':la\\b set 1', 'set "a"b',
@@ -55,7 +69,11 @@ class Tree:
         return None
 
     def canon(self, p):
-        """std::fs::canonicalize with cwd = root; None when it fails"""
+        """std::fs::canonicalize with cwd = root; None when it fails (used by the acyclicity guard only: the model side
+        uses the same algorithm in ocaml/c14_driver.ml, which the K cases compare with the OS)"""
+        if p == "":
+            return None
+        must_dir = p.split("/")[-1] in ("", ".")
         if not p.startswith("/"):
             p = self.root + "/" + p
         todo = [c for c in p.split("/") if c not in ("", ".")]
@@ -83,6 +101,8 @@ class Tree:
                 todo = [c for c in tgt.split("/") if c not in ("", ".")] + todo
             elif k == "f" and todo:
                 return None
+        if must_dir and self.kind("/" + "/".join(cur)) == "f":
+            return None
         return "/" + "/".join(cur)
 
     def rel_of(self, pathstring):
@@ -165,7 +185,7 @@ class Tree:
 
 
 def quote_arg(rng, a):
-    if " " in a or a == "" or rng.random() < 0.15:
+    if " " in a or a == "" or "\\" in a or rng.random() < 0.15:
         return '"' + a.replace("\\", "\\\\").replace('"', '\\"') + '"'
     return a
 
@@ -413,11 +433,109 @@ def small_scope(base, tag):
     return out
 
 
+# ---- path resolution: unit-level streams ------------------------------------------------------------------------
+def unit_cases(thorough):
+    """U lines: every source string of length <= 6 (thorough: 7) over '/', '.', 'a' with 8 arguments, every source
+    and argument of length <= 3 (4) over '/', '.', 'a', ' ', 'é', backslash"""
+    import itertools
+    n1, n2 = (7, 4) if thorough else (6, 3)
+    srcs = [""] + ["".join(t) for n in range(1, n1 + 1) for t in itertools.product("/.a", repeat=n)]
+    args = ["x", "", "/x", "./x", "../x", "x/", "//", "."]
+    out = [(s_, a) for s_ in srcs for a in args]
+    small = [""] + ["".join(t) for n in range(1, n2 + 1) for t in itertools.product("/.a é\\", repeat=n)]
+    out += [(s_, a) for s_ in small for a in small[:60]]
+    return out
+
+
+P_DIRS = ["lib", "lib/deep", "my dir", "ünï"]
+
+
+def path_tree(root, variant):
+    """the tree of the K and P cases: t.ds / u.ds in every directory, symbolic links to directories (relative and
+    absolute target), to a file, dangling and looping"""
+    t = Tree(root)
+    for d in P_DIRS:
+        t.add_dir(d)
+    for k, d in enumerate([""] + P_DIRS):
+        pre = d + "/" if d else ""
+        t.files[pre + "t.ds"] = "emit t%d\n" % k
+        t.files[pre + "u.ds"] = "emit u%d\nboom u%d\n" % (k, k)
+    t.files["\\t.ds"] = "emit backslash\n"
+    t.files[" t.ds"] = "emit leading-space\n"
+    t.links["lnk"] = "lib" if variant % 2 == 0 else root + "/lib"
+    t.links["dl"] = "lib/deep"
+    t.links["lf"] = "lib/t.ds"
+    t.links["dang"] = "nowhere/x"
+    t.links["loop"] = "loop"
+    return t
+
+
+def k_cases(base, tag):
+    """K lines: (tree, [paths]) — prefixes x targets x suffixes of hostile spellings"""
+    out = []
+    for v in (0, 1):
+        root = "%s/%s_k%d" % (base, tag, v)
+        t = path_tree(root, v)
+        up = "../" + os.path.basename(root) + "/"
+        prefixes = ["", "./", root + "/", root + "//", "lib/../", "lib/deep/../../", "nodir/../", "lnk/../", "dl/../", up]
+        targets = ["t.ds", "lib/t.ds", "lib//t.ds", "lib/./t.ds", "lib/deep/t.ds", "lnk/t.ds", "lnk/deep/t.ds", "dl/t.ds", "lf",
+                   "dang", "loop", "loop/x", "my dir/t.ds", "ünï/t.ds", "lib", "nope.ds", "lib/nope/t.ds", "t.ds/x", "\\t.ds",
+                   " t.ds", "..", "."]
+        suffixes = ["", "/", "/.", "/..", "//", "/./"]
+        paths = ["", ".", "..", "/", "//", root, root + "/", "/nonexistent-c14/t.ds"]
+        paths += [a + b + c for a in prefixes for b in targets for c in suffixes]
+        out.append((t, paths))
+    return out
+
+
+MAIN_RELS = ["m.ds", "lib/m.ds", "lib/deep/m.ds", "my dir/m.ds", "ünï/m.ds"]
+
+
+def main_spellings(root, rel):
+    d, b = os.path.dirname(rel), os.path.basename(rel)
+    dd = d + "/" if d else ""
+    sp = [rel, "./" + rel, root + "/" + rel, dd + "/" + b if d else ".//" + b, dd + "./" + b, "lib/../" + rel,
+          root + "/lib/../" + rel, rel.replace("/", "//"), "../" + os.path.basename(root) + "/" + rel, root + "//" + rel]
+    if rel.startswith("lib/"):
+        sp.append("lnk/" + rel[4:])
+    if rel.startswith("lib/deep/"):
+        sp.append("dl/" + rel[9:])
+    return sp
+
+
+def include_args(root):
+    return ["t.ds", "./t.ds", "../t.ds", "deep/t.ds", "deep//t.ds", "deep/../t.ds", "./deep/./t.ds", "lib/t.ds", "../lib/t.ds",
+            "t.ds/", "t.ds/.", "", ".", "..", "./", "../", "missing.ds", "../missing.ds", "nodir/../t.ds", "nodir/t.ds",
+            root + "/lib/t.ds", root + "/lib/../lib/t.ds", root + "//lib//t.ds", "\\t.ds", "my dir/t.ds", "../my dir/t.ds",
+            "ünï/t.ds", "../ünï/t.ds", "lib", "deep", "lnk/t.ds", "../lnk/deep/t.ds", "dl/../t.ds", "../dl/../t.ds", " t.ds",
+            "t.ds ", "../../t.ds", "lf", "../lf", "dang", "loop"]
+
+
+def p_cases(base, tag, rng, thorough):
+    """P cases: one including file m.ds (3 lines, the directive in the middle) at every one of 5 places x every spelling
+    of its path x every include argument of the pool (quick: 3 spellings per (place, argument), chosen so that every
+    spelling is used); lib/t.ds itself includes deep/u.ds (a nested include whose source is the canonical path)"""
+    out = []
+    n = 0
+    for rel in MAIN_RELS:
+        n_sp = len(main_spellings("/r", rel))
+        for ai in range(len(include_args("/r"))):
+            ks = range(n_sp) if thorough else sorted(set([(ai + j * 4) % n_sp for j in range(3)]))
+            for k in ks:
+                n += 1
+                root = "%s/%s_p%d" % (base, tag, n)
+                t = path_tree(root, n)
+                arg = include_args(root)[ai]
+                t.files["lib/t.ds"] = "emit t1\n!include_files deep/u.ds\n"
+                t.files[rel] = "emit before\n!include_files %s\nboom after\n" % quote_arg(rng, arg)
+                t.args = {rel: [arg], "lib/t.ds": ["deep/u.ds"]}
+                out.append((Fixed(t, [("spelling", rel, arg)]), main_spellings(root, rel)[k]))
+    return out
+
+
+
 def case_line(kind, tree, main, extra):
-    vfs, res = tree.tables(main)
-    f_vfs = " ".join("%s:%s" % (enc_str(p), enc_str(c)) for p, c in sorted(vfs.items())) or "-"
-    f_res = " ".join("%s:%s:%s" % (enc_str(s), enc_str(a), enc_str(q)) for (s, a), q in sorted(res.items())) or "-"
-    return "\t".join([kind, enc_str(tree.root), enc_str(main), tree.disk()] + extra + [f_vfs, f_res])
+    return "\t".join([kind, enc_str(tree.root), enc_str(main), tree.disk()] + extra)
 
 
 def parse_result(s):
@@ -435,6 +553,7 @@ def run(ck):
                          # the run-level corollary, proved on the runner model (RunnerErase.v): a run depends on the
                          # instructions only through `erase`, positions excepted
                          ["DSP.C14b.C14_run_erase", "DSP.C14b.C14_run_pre_to_empty"])
+    ck.source_tie("parser")
     ck.hygiene()
     ck.ocaml_build()
     ck.harness_build(["c14"])
@@ -449,6 +568,10 @@ def run(ck):
     n_cases = 6000 if thorough else 1500
     cases = small_scope(base, tag)
     n_small = len(cases)
+    pc = [c for c in p_cases(base, tag, rng, thorough) if c[0].t.acyclic()]
+    cases += pc
+    n_path = len(pc)
+    n_fixed = len(cases)
     dropped_cyclic = 0
     for k in range(n_cases):
         r = rng.random()
@@ -575,10 +698,66 @@ def run(ck):
                         "model_parse": m_f[k].split("\t")[0], "wire": r_lines[r_idx.index(k)],
                         "theorems": ["C14_paste", "C14_prov", "C14_prov_order"],
                         "replay_cmd": "printf '%%s\\n' '<wire>' | .cache/cargo-target/release/c14"})
+        # unit-level streams of the path model: U (lexical model vs std::path), K (OS emulation of the driver vs the OS)
+        u_cases = unit_cases(thorough)
+        u_lines = ["U\t%s\t%s" % (enc_str(a), enc_str(b)) for a, b in u_cases]
+        m_u, i_u = ck.model(u_lines), ck.impl(u_lines)
+        u_stats = {"cases": len(u_lines), "parent_none": 0, "parent_empty": 0, "parent_trimmed": 0, "distinct_results": 0}
+        u_seen = set()
+        for (a, b), m, i in zip(u_cases, m_u, i_u):
+            u_seen.add(m)
+            mf = m.split("\t")
+            if len(mf) == 3:
+                if mf[0] == "N":
+                    u_stats["parent_none"] += 1
+                elif mf[0] == "Se":
+                    u_stats["parent_empty"] += 1
+                elif "/" in a and dec_str(mf[0][1:]) != a[:a.rindex("/")]:
+                    u_stats["parent_trimmed"] += 1
+            if m != i or len(mf) != 3 or "FUEL" in m:
+                found = True
+                if len(ck.violations) < 5:
+                    ck.violation({
+                        "kind": "lexical path model (Path::parent / PathBuf::push / the pre-processor's join) vs std::path",
+                        "source": a, "argument": b, "fields": "parent(source), parent(source).push(argument) or argument, source.push(argument)",
+                        "model": [dec_str(x[1:]) if x[:1] == "S" else x for x in mf[:1]] + [dec_str(x) for x in mf[1:]],
+                        "implementation": i, "model_raw": m, "wire": "U\t%s\t%s" % (enc_str(a), enc_str(b)), "seed": ck.seed,
+                        "theorems": ["C14_parent_dir_file", "C14_resolve_relative", "C14_parent_corners", "C14_push_corners"],
+                        "replay_cmd": "printf '%s\\n' '<wire>' | .cache/cargo-target/release/c14   (and | ocaml/bin/c14_model)"})
+        u_stats["distinct_results"] = len(u_seen)
+        kc = k_cases(base, tag)
+        k_lines = ["\t".join(["K", enc_str(t.root), "e", t.disk(), vlib.enc_list(paths)]) for t, paths in kc]
+        m_k, i_k = ck.model(k_lines), ck.impl(k_lines)
+        k_stats = {"trees": len(kc), "paths": 0, "canonical": 0, "readable": 0, "canon_fails": 0}
+        for (t, paths), m, i in zip(kc, m_k, i_k):
+            ms, is_ = m.split("|"), i.split("|")
+            if len(ms) != len(paths) or len(is_) != len(paths):
+                ms, is_ = [m] * len(paths), [i] * len(paths)
+            for pth, a, b in zip(paths, ms, is_):
+                k_stats["paths"] += 1
+                if a.startswith("S"):
+                    k_stats["canonical"] += 1
+                else:
+                    k_stats["canon_fails"] += 1
+                if ";OK" in a:
+                    k_stats["readable"] += 1
+                if a != b:
+                    found = True
+                    if len(ck.violations) < 5:
+                        ck.violation({
+                            "kind": "the check's emulation of canonicalize / read_text_file (ocaml/c14_driver.ml) vs the OS "
+                                    "(an error of the check's trusted base or an OS that resolves paths differently)",
+                            "path": pth.replace(t.root, "<root>"), "root": t.root, "files": sorted(t.files), "symlinks": t.links,
+                            "emulation": a.replace(enc_str(t.root), "<root>"), "os": b.replace(enc_str(t.root), "<root>"),
+                            "wire": "\t".join(["K", enc_str(t.root), "e", t.disk(), vlib.enc_list([pth])]), "seed": ck.seed,
+                            "theorems": ["C14_resolve_reads"],
+                            "replay_cmd": "printf '%s\\n' '<wire>' | .cache/cargo-target/release/c14   (and | ocaml/bin/c14_model)"})
+        dist["path_unit"] = {"U": u_stats, "K": k_stats, "P_cases": n_path,
+                             "P_what": p_cases.__doc__, "U_what": unit_cases.__doc__, "K_what": k_cases.__doc__}
         dist["generator"] = agg
         dist["run"] = run_stats
         cov = {
-            "evaluations": len(f_lines) + len(r_lines),
+            "evaluations": len(f_lines) + len(r_lines) + len(u_lines) + k_stats["paths"],
             "distinct_nontrivial": len(nontriv),
             "rule": "random acyclic include trees (depth <= 4, fan-out <= 3, nested directories incl. names with spaces, "
                     "relative / ./ / .. / absolute / absolute-with-.. / through-a-symlinked-directory arguments, a file listed "
@@ -586,9 +765,10 @@ def run(ck):
                     "newline, planted missing files / directories-as-files / malformed lines, missing main); non-trivial = distinct "
                     "parse result that either is an error or has instructions from >= 2 sources",
             "exhaustive": True,
-            "exhaustive_part": {"small_scope_cases": n_small, "what": small_scope.__doc__},
+            "exhaustive_part": {"small_scope_cases": n_small, "what": small_scope.__doc__,
+                                "path_spelling_cases": n_path, "path_unit_cases": len(u_lines), "os_emulation_paths": k_stats["paths"]},
             "samples": [{"main": cases[j][1].replace(cases[j][0].t.root, "<root>"),
-                         "files": {p: c for p, c in list(cases[j][0].t.files.items())[:4]}} for j in (0, n_small, n_small + 1)],
+                         "files": {p: c for p, c in list(cases[j][0].t.files.items())[:4]}} for j in (0, n_small, n_fixed, n_fixed + 1)],
             "distribution": dist,
             "dropped_cyclic_by_assertion": dropped_cyclic,
         }
@@ -601,10 +781,13 @@ def run(ck):
             vlib.sh(["rm", "-rf", os.path.join(base, d)])
     ck.report_broken(found)
     ck.assumptions += [
-        "fs / resolve are Section variables: the OS's path resolution (PathBuf::parent, push, canonicalize, `..`, symlinks) "
-        "is emulated by lib/props/c14.py to build the model's tables and is tied to the OS by the correspondence run only (partial)",
+        "path resolution is the lexical Coq model IncludePath.v (Path::parent, PathBuf::push for Unix paths, written after "
+        "library/std/src/path.rs and compared exhaustively on short strings with std::path by the U cases); what stays a Section "
+        "variable is `canon` (std::fs::canonicalize: symbolic links, the current directory, existence) and `fs` (file contents): "
+        "both are emulated by ocaml/c14_driver.ml on the case's directory tree and that emulation is compared with the OS by the K cases",
+        "paths are Rust Strings (valid UTF-8): to_string_lossy is the identity; a canonical path that is not UTF-8 is not modelled",
         "read_text_file failing for any reason (missing, directory, invalid UTF-8, permissions) is fs p = None",
         "include cycles are excluded (hypothesis `within f p`; on the real code a cycle overflows the stack: finding F12, property C07)",
-        "`run depends on instructions only through erase` is covered by the R cases (run_script_file vs run_script on the pasted text), not proved (no Runner model here)",
-        "Windows path separators: only the `starts_with('\\\\')` test is modelled",
+        "`run depends on instructions only through erase` is proved on the runner model (C14b: C14_run_erase) and covered by the R cases (run_script_file vs run_script on the pasted text)",
+        "Unix paths only (separator '/', no prefixes); of Windows only the `starts_with('\\\\')` test is modelled",
     ]
